@@ -16,7 +16,8 @@ RULE = ("exhaustive grid: array lengths 0..7 x each of start/end/step in {omitte
         "random legal spelling (omitted parts, trailing colon, blank space); the same selectors applied to objects with numeric-looking "
         "keys, strings and scalars must select nothing. Oracle = verbatim Normalize/Bounds pseudo-code of RFC 9535 2.3.4.2.2. Checked: "
         "locations are the non-negative indices, values are the very element objects, order. Non-trivial: non-empty expected selection "
-        "with a negative or omitted component; distinct by (length, selector).")
+        "with a negative or omitted component; distinct by (length, selector)."
+        " The same selectors inside filters (existence test, comparand, function argument) on non-arrays must select nothing either.")
 ASSUMPTIONS = ["oracle vf/oracle/sem.py:slice_indices is the RFC pseudo-code verbatim"]
 DECIDING_MONITORS = ["M-find"]
 
